@@ -45,6 +45,9 @@ MAP = [
  ("NULL join keys matched each other", "C11", "KF-C11-null-keys-match-in-nested-loop"),
  ("free space check of TmpTuplePage wrapped around", "C11", "KF-C11-tmp-tuple-page-wrap"),
  ("block pages of a new hash index were not written", "C07", "KF-C07-hash-block-pages-not-on-file"),
+ ("data race between statistics update and query planning", "C19", "KF-C19-race-statistics"),
+ ("data race on TableHeap.lastPageID", "C19", "KF-C19-race-last-page-id"),
+ ("data race on the stop flag of RequestManager", "C19", "KF-C19-race-request-manager-stop-flag"),
 ]
 
 def sh(cmd, **kw):
